@@ -358,6 +358,20 @@ fn type_serde_violation(only: Option<usize>) -> Option<(usize, String, String)> 
     }
     None
 }
+/// programs in which a `let`-bound aggregate holding a boxed value is still reachable when the `let` scope ends
+/// (C12: "no closure or heap object is used after it has been released"); expected outputs by call-by-value evaluation
+fn let_release_programs() -> Vec<(&'static str, Vec<f64>, &'static str)> {
+    let pre = "type rec L = Nil | Cons(float, L)\nfn head(l){ match l { Nil => 0.0, Cons(h, t) => h } }\n";
+    let leak: fn(String) -> &'static str = |s| Box::leak(s.into_boxed_str());
+    vec![
+        (leak(format!("{pre}fn mk(){{\n  let s = (Cons(3.0, Nil), 2.0)\n  s\n}}\nfn dsp(){{\n  let t = mk()\n  head(t.0) + t.1\n}}\n")), vec![5.0; 4],
+         "a let-bound tuple holding a boxed value is the result of its scope"),
+        (leak(format!("{pre}fn dsp(){{\n  let r = (Cons(3.0, Nil), 2.0)\n  let x = {{\n     let s = r\n     s.1\n  }}\n  head(r.0) + x\n}}\n")), vec![5.0; 4],
+         "a tuple holding a boxed value is copied into a second variable in an inner block and used after that block"),
+        (leak(format!("{pre}fn dsp(){{\n  let r = {{a = Cons(3.0, Nil), b = 2.0}}\n  let x = {{\n     let {{b = y}} = r\n     y\n  }}\n  head(r.a) + x\n}}\n")), vec![5.0; 4],
+         "a record holding a boxed value is destructured by a partial record pattern in an inner block and used after that block"),
+    ]
+}
 fn branch_state_programs() -> Vec<(String, Vec<f64>, String)> {
     vec![
         ("fn cnt(){ self + 1.0 }\nfn sel(c){\n  if (c) { cnt() } else { cnt()*10.0 }\n}\nfn dsp(){\n  let a = sel(0.0)\n  let b = cnt()\n  a + b*1000.0\n}\n".to_string(),
@@ -775,6 +789,25 @@ fn main() {
         match type_serde_violation(only) {
             Some((i, v, c)) => println!("{} index={i} value={v} clause={c}", if args[1] == "type-serde-run" { "FAILS" } else { "FOUND" }),
             None => println!("{}", if args[1] == "type-serde-run" { "HOLDS" } else { "NONE" }),
+        }
+        return;
+    }
+    if args.get(1).map(|s| s.as_str()) == Some("let-release") {
+        let idx: usize = args.get(2).and_then(|s| s.parse().ok()).unwrap_or(0);
+        let progs = let_release_programs();
+        let (src, want, desc) = &progs[idx.min(progs.len() - 1)];
+        let prev = std::panic::take_hook();
+        std::panic::set_hook(Box::new(|_| {}));
+        let r = std::panic::catch_unwind(|| run_vm(src, want.len()));
+        std::panic::set_hook(prev);
+        match r {
+            Ok(Ok(v)) if &v == want => println!("HOLDS"),
+            Ok(Ok(v)) => println!("FAILS C12[no heap object is used after it has been released] `{desc}`: outputs {v:?}, expected {want:?}"),
+            Ok(Err(e)) => println!("HOLDS (program rejected: {e})"),
+            Err(p) => {
+                let msg = p.downcast_ref::<String>().cloned().or_else(|| p.downcast_ref::<&str>().map(|s| s.to_string())).unwrap_or_default();
+                println!("FAILS C12[no heap object is used after it has been released] `{desc}`: the VM panics with `{msg}`");
+            }
         }
         return;
     }
